@@ -55,6 +55,19 @@ func readUint32(r *bufio.Reader) (uint32, error) {
 	return v, err
 }
 
+// discardRest discards what remains of a length-limited frame.  It fails
+// if the stream ended before the end of the frame.
+func discardRest(lr io.Reader) error {
+	_, err := io.Copy(io.Discard, lr)
+	if err != nil {
+		return err
+	}
+	if l, ok := lr.(*io.LimitedReader); ok && l.N > 0 {
+		return io.ErrUnexpectedEOF
+	}
+	return nil
+}
+
 // Read reads a single BitTorrent message from r.  If l is not nil, then
 // the message is logged.
 func Read(r *bufio.Reader, l *log.Logger) (Message, error) {
@@ -231,7 +244,7 @@ func Read(r *bufio.Reader, l *log.Logger) (Message, error) {
 			if err != nil {
 				return nil, err
 			}
-			_, err = io.Copy(io.Discard, lr)
+			err = discardRest(lr)
 			if err != nil {
 				return nil, err
 			}
@@ -264,7 +277,7 @@ func Read(r *bufio.Reader, l *log.Logger) (Message, error) {
 			if err != nil {
 				return nil, err
 			}
-			_, err = io.Copy(io.Discard, lr)
+			err = discardRest(lr)
 			if err != nil {
 				return nil, err
 			}
